@@ -15,7 +15,8 @@ from pyvc.verify import Contract
 
 ASSUMPTIONS = ["new_lines passed to _validate are the sorted positions of the newline bytes of `data` (established by from_raw_buffer: "
                "np.flatnonzero(chunk == NEWLINE), validated in C01-P2 style for delimited buffers; bounded for one-line buffers)"]
-NOT_PROVED = ["non-numeric value / foreign character in a column -> error with the row number (DelimitedBuffer._get_field_by_number): bounded",
+NOT_PROVED = ["that a non-numeric value / foreign character makes the column parser raise at all (the parsers' own checks): bounded; the conversion of its "
+              "flat offset into the row number IS proved (DelimitedBuffer._get_field_by_number, both text layouts)",
               "a line with a different number of columns: bounded", "lazy / eager and gzip equivalence of the reported number: bounded"]
 
 
@@ -130,3 +131,88 @@ read_chunk_seek = _c01._mk(False, False, prefix="C15")
 read_chunk_carry = _c01._mk(True, False, prefix="C15")
 
 CONTRACTS = [validate_fasta, validate_fastq_header, validate_fastq, read_chunk_seek, read_chunk_carry]
+
+
+# --- an encoding error inside a column becomes a format error that names the ROW (DelimitedBuffer._get_field_by_number) --------------------------
+# The column parser reports the flat offset of the first offending character within the column text.  Proved for both layouts of that text:
+#   digit matrix (n rows x w columns):   reported row r satisfies  r*w <= offset < (r+1)*w
+#   ragged text (row lengths len(i)):    reported row r satisfies  C(r) <= offset < C(r+1)   (C = prefix sums of the lengths)
+# and when the parser succeeds its result is returned unchanged.  (DelimitedBuffer.get_field_by_number -> NpDataclassReader adds the chunk's base line.)
+from pyvc.core import SRec, SArr2, Opaque, PathEnd     # noqa: E402
+from pyvc.pybuiltins import SRaggedObj                    # noqa: E402
+
+
+def _DB():
+    from bionumpy.io.delimited_buffers import DelimitedBuffer
+    return DelimitedBuffer
+
+
+_hg = {}
+
+
+class _Parser:
+    """the column parser: either succeeds (returns one value per row) or raises EncodingError with the flat offset of an offending character"""
+
+    def sym_call(self, ip, args, kwargs, lineno):
+        st = _hg["st"]
+        if ip.ctx.branch(st.fails):
+            raise PathEnd("raise", "EncodingError", None, {"offset": st.off, "args": ["message"]})
+        st.parsed = SArr.fresh(st.n, lambda i: st.val(I(i)))
+        return st.parsed
+
+
+def _mk_gf(layout):
+    def setup(ctx):
+        st = St()
+        st.n, st.w, st.off = z3.Int("n_rows"), z3.Int("width"), z3.Int("error_offset")
+        st.fails = z3.Bool("parser_fails")
+        st.val, st.len = z3.Function("parsed_value", z3.IntSort(), z3.IntSort()), z3.Function("row_length", z3.IntSort(), z3.IntSort())
+        st.fl = lambda i: st.len(I(i))
+        if layout == "matrix":
+            text = SArr2.fresh(st.n, st.w, lambda i, j: 48, enc="BaseEncoding")
+            extractor = SRec(None, get_digit_array=_Ret((text, None, None)))
+            ftype = int
+        else:
+            st.C = M.exclusive_prefix(st.fl, st.n)
+            text = SRaggedObj(lambda p: 65, st.n, lambda i: st.C(I(i)), st.fl, "BaseEncoding", st.C(st.n), contiguous=True, C=st.C)
+            extractor = SRec(None, get_field_by_number=_Ret(text))
+            ftype = str
+        st.selfv = SRec(_DB(), _buffer_extractor=extractor, _is_validated=True)
+        st.args = [3, ftype]
+        _hg["st"] = st
+        return st
+
+    def req(ctx, st):
+        if layout == "matrix":
+            return [st.n >= 1, st.w >= 1, st.off >= 0, st.off < st.n * st.w]
+        ctx.assume(st.n >= 1, Forall(lambda i: Implies(in_range(i, st.n), st.len(i) >= 0), triggers=[st.len], name="row lengths >= 0"))
+        M.prefix_monotone(st.C, st.fl, st.n)
+        return [st.off >= 0, st.off < st.C(st.n)]
+
+    def on_raise(ctx, st):
+        r = ctx.last_raise.get("line_number")
+        if layout == "matrix":
+            return [("raised.only.when.the.parser.failed", st.fails), ("reported.row.contains.the.offending.character", And(I(r) * st.w <= st.off, st.off < (I(r) + 1) * st.w))]
+        return [("raised.only.when.the.parser.failed", st.fails),
+                ("reported.row.contains.the.offending.character", And(I(r) >= 0, I(r) < st.n, st.C(I(r)) <= st.off, st.off < st.C(I(r) + 1)))]
+    return Contract("C15.DelimitedBuffer._get_field_by_number[%s]" % ("digit matrix" if layout == "matrix" else "ragged text"), target=lambda: _DB()._get_field_by_number,
+                    setup=setup, requires=req,
+                    ensures=lambda ctx, st, ret: [("parser.result.returned.unchanged", ret is st.parsed), ("returns.only.when.the.parser.succeeded", Not(st.fails))],
+                    raises={"FormatException": on_raise},
+                    callees={"bionumpy.io.file_buffers.FileBuffer._get_parser": lambda ip, args, kwargs, lineno: _Parser(),
+                             "bionumpy.io.file_buffers.TextBufferExtractor._get_parser": lambda ip, args, kwargs, lineno: _Parser(),
+                             "bionumpy.io.delimited_buffers.DelimitedBuffer.validate_if_not": lambda ip, args, kwargs, lineno: None},
+                    hints=lambda ctx, st, ks: [],
+                    canaries=[("row taken from the column count", "row_number = e.offset // text.shape[1]", "row_number = e.offset // text.shape[0]")] if layout == "matrix" else
+                             [("row before the offending one", 'row_number = np.searchsorted(np.cumsum(text.lengths), e.offset, side="right")', 'row_number = np.searchsorted(np.cumsum(text.lengths), e.offset, side="left")')])
+
+
+class _Ret:
+    def __init__(self, v):
+        self.v = v
+
+    def sym_call(self, ip, args, kwargs, lineno):
+        return self.v
+
+
+CONTRACTS += [_mk_gf("matrix"), _mk_gf("ragged")]
